@@ -80,6 +80,9 @@ def run(prog, chk):
     chk.rule(C17.limit_errors_keep_their_variant, prog, chk)  # a loop that exceeds its limit ends the transform with that error (nothing on the way turns it into a retryable one)
     chk.rule(loop_variable_names_verbatim, prog, chk)
     chk.rule(extent_accumulation, prog, chk)
+    from props import C01 as _C01
+    chk.rule(_C01.retry_amplification, prog, chk)  # a loop whose body refers forward is retried while anything - also inside a nested list - still resolves; N copies of the body resolve exactly when the hand-written copies do
+    chk.rule(_C01.retry_baseline_after_attempt, prog, chk)
     from props import geomalg
     n = geomalg.check_sites(prog, chk, "C16")
     chk.floor("A17.site-algebra", n, 5, "loop parameter default case")
